@@ -414,7 +414,7 @@ def check(repo, rep, tier):
     rule_implicit(repo, r2, mods)
     r3 = rep.rule("R-C07-3", "guarded constraints go through the dummy path", floor=3)
     rule_dummy_path(repo, r3)
-    r4 = rep.rule("R-C07-4", "is_guard() hint arms have equal-emission dummy arms", floor=3)
+    r4 = rep.rule("R-C07-4", "is_guard() hint arms have equal-emission dummy arms", floor=2)
     rule_hint_arms(repo, r4, mods)
     r5 = rep.rule("R-C07-5", "lazy branches of if_then_else run under cond / its complement", floor=1)
     rule_lazy(repo, r5)
